@@ -30,14 +30,14 @@ class K19b(Harness):
 
     def params(self, tier):
         if tier == "quick":
-            return [{"k": 1, "v": "full"}, {"k": 2, "v": "full"}, {"k": 3, "v": "small"}]
+            return [{"k": 1, "v": "full"}, {"k": 2, "v": "full"}, {"k": 3, "v": "tiny"}]
         return [{"k": 1, "v": "full"}, {"k": 2, "v": "full"}, {"k": 3, "v": "full"}, {"k": 4, "v": "small"}]
 
     def shard_target(self, p):
         return 128
 
     def run(self, eng, p):
-        vocab = VOCAB if p["v"] == "full" else SMALL
+        vocab = VOCAB if p["v"] == "full" else (SMALL if p["v"] == "small" else SMALL[:13])
         words = [vocab[eng.choose("w%d" % i, len(vocab))] for i in range(p["k"])]
         one_line = eng.bool("one_line")
         lines = [" ".join(words)] if one_line else list(words)
@@ -45,7 +45,7 @@ class K19b(Harness):
         return True
 
     def describe(self, values, p):
-        vocab = VOCAB if p["v"] == "full" else SMALL
+        vocab = VOCAB if p["v"] == "full" else (SMALL if p["v"] == "small" else SMALL[:13])
         words = [vocab[values.get("w%d" % i, 0)] for i in range(p["k"])]
         return {"lines": [" ".join(words)] if values.get("one_line") else words}
 
